@@ -30,13 +30,15 @@ def unhexAux : List Char → List Byte → List Byte
 def genBytes (seed n : Nat) : List Byte :=
   (List.range n).map fun k => UInt8.ofNat (97 + ((7 * k * k + 13 * k + seed) % 1009) % 5)
 
-def unhex (s : String) : List Byte :=
-  if s = "-" then []
-  else if s.startsWith "@" then
+def unhex (s : String) : List Byte := if s = "-" then [] else unhexAux s.toList []
+
+/-- payload operand of the parser machine: hex, or generated `@seed:n` -/
+def payload (s : String) : List Byte :=
+  if s.startsWith "@" then
     match (s.drop 1).toString.splitOn ":" with
     | [a, b] => genBytes (a.toNat?.getD 0) (b.toNat?.getD 0)
     | _ => []
-  else unhexAux s.toList []
+  else unhex s
 
 def hexChar (n : Nat) : Char := if n < 10 then Char.ofNat (48 + n) else Char.ofNat (87 + n)
 
@@ -130,9 +132,9 @@ def errStr (e : Err) : String := if e = hangErr then "hang" else e.toString
 def stepParser (s : Parser) (wr : Option Reader) (ws : List String) : Machine × String :=
   match ws with
   | ["write", h] =>
-    let (s', n, e) := s.write (unhex h); (.parser s' wr, s!"{n} {e}")
+    let (s', n, e) := s.write (payload h); (.parser s' wr, s!"{n} {e}")
   | ["readfrom", h, rs] =>
-    let (s', _, n, e) := s.readFrom { payload := unhex h, resps := parseResps rs }
+    let (s', _, n, e) := s.readFrom { payload := payload h, resps := parseResps rs }
     (.parser s' wr, s!"{n} {e}")
   | ["parse", f] =>
     let (s', n, e, blk) := s.parse (nat! f); (.parser s' wr, s!"{n} {e} {showBlock blk}")
@@ -141,7 +143,7 @@ def stepParser (s : Parser) (wr : Option Reader) (ws : List String) : Machine ×
   | ["shrink"] =>
     let (s', d) := s.shrink; (.parser s' wr, s!"{d}")
   | ["reset", h, ce] =>
-    let (s', e) := s.reset (unhex h) (nat! ce); (.parser s' wr, s!"{e}")
+    let (s', e) := s.reset (payload h) (nat! ce); (.parser s' wr, s!"{e}")
   | ["readat", n, off] =>
     let (q, e) := s.buf.readAt (nat! n) (int! off); (.parser s wr, s!"{q.length} {e} {hex q}")
   | ["byteat", off] =>
@@ -150,7 +152,7 @@ def stepParser (s : Parser) (wr : Option Reader) (ws : List String) : Machine ×
     let b := s.buf.cfg
     (.parser s wr, s!"{s.kind.name} {s.cfg.render s.kind} buf={b.shrinkSize},{b.bufferSize},{b.windowSize},{b.blockSize}")
   | ["wrap", h, rs] =>
-    (.parser s (some { payload := unhex h, resps := parseResps rs }), "ok")
+    (.parser s (some { payload := payload h, resps := parseResps rs }), "ok")
   | ["wparse", f] =>
     match wr with
     | some r =>
@@ -158,7 +160,7 @@ def stepParser (s : Parser) (wr : Option Reader) (ws : List String) : Machine ×
       (.parser wp.s (some wp.r), s!"{n} {e} {showBlock blk}")
     | none => (.parser s wr, "bad-op")
   | ["wreset", h, rs] =>
-    let (wp, e) := Wrapped.reset { r := wr.getD default, s := s } { payload := unhex h, resps := parseResps rs }
+    let (wp, e) := Wrapped.reset { r := wr.getD default, s := s } { payload := payload h, resps := parseResps rs }
     (.parser wp.s (some wp.r), s!"{e}")
   | _ => (.parser s wr, "bad-op")
 
